@@ -22,7 +22,7 @@ TrRet == /\ IsEvent("iret") /\ Consume /\ cur.op = Ev.op
               [] Ev.op = "release" -> Ev.res = 1 /\ units' = units + 1
               [] Ev.op = "shmlock" -> Ev.res = 1 /\ units > 0 /\ units' = units - 1
               [] Ev.op = "shmunlock" -> Ev.res = 1 /\ units' = units + 1
-              [] Ev.op \in {"semnew", "shmnew", "semfree", "shmfree"} -> Ev.res = 1 /\ UNCHANGED units               \* creating / opening IPC objects still succeeds
+              [] Ev.op \in {"semnew", "shmnew", "semfree", "shmfree", "semopen", "semcreate", "shmopen"} -> Ev.res = 1 /\ UNCHANGED units               \* creating / opening IPC objects still succeeds
               [] OTHER -> FALSE
          /\ cur' = NoCall /\ nint' = 0
 (* a helper thread gives a unit back (semaphore release / segment unlock) while the thread under test is blocked *)
